@@ -294,7 +294,7 @@ func runC13(c *fw.Ctx) {
 		cases = sel
 	}
 	// variants: trailing bytes, secure messaging, absent files, random sizes
-	nrand := c.Pick(3000, 120000)
+	nrand := c.Pick(3000, 720000)
 	for i := 0; i < nrand; i++ {
 		cs := c13Case{beh: prng.IntN(len(c13Behaviours)), maxRd: c13MaxReads[prng.IntN(len(c13MaxReads))]}
 		if prng.IntN(4) == 0 {
